@@ -470,8 +470,464 @@ def gen_auth():
     return {'roles': roles, 'kgroles': kgroles, 'kinds': [k for k, _ in kinds]}
 
 
+# ------------------------------------------------------------------ value / wire-value rank tables (C31, C35)
+class EvBody(Ev):
+    """Ev that does not fail on an arm body outside the subset: the body is returned opaquely as
+    ('BODY', text).  Used to classify every (variant, variant) pair of a comparison `match` as either a
+    payload-independent constant or a payload-dependent arm (whose meaning is modelled by hand and
+    tied by the correspondence check)."""
+
+    def expr(self, toks, i, env):
+        try:
+            v, j = Ev.expr(self, toks, i, env)
+            if i == 0 and not all(t[1] in (';', ',') for t in toks[j:]):
+                raise TranslateError('opaque')
+            return v, j
+        except (TranslateError, IndexError):
+            if i != 0:
+                raise
+            return ('BODY', ' '.join(t[1] for t in toks)), len(toks)
+
+
+def impl_block(src, header_re):
+    m = re.search(header_re + r'\s*\{', src)
+    if not m:
+        raise TranslateError(f'impl block {header_re!r} not found')
+    depth, i = 0, m.end() - 1
+    while True:
+        if src[i] == '{':
+            depth += 1
+        elif src[i] == '}':
+            depth -= 1
+            if depth == 0:
+                return src[m.start():i + 1]
+        i += 1
+
+
+def _ordering(v, what):
+    if isinstance(v, tuple) and v[:2] == ('E', 'Ordering') and v[2] in ('Less', 'Equal', 'Greater'):
+        return {'Less': 'Lt', 'Equal': 'Eq', 'Greater': 'Gt'}[v[2]]
+    raise TranslateError(f'{what}: arm does not evaluate to an Ordering: {v!r}')
+
+
+def gen_rank():
+    """impl Ord for Value: for every ordered pair of variants, the payload-independent answer of `cmp`
+    (Some c) or None when the matching arm looks at payloads; plus declaration order (= mem::discriminant)."""
+    src = read('src/value/mod.rs')
+    variants = enum_variants(src, 'Value')
+    names = [v for v, _ in variants]
+    ev = EvBody(impl_block(src, r'impl Ord for Value'), {})
+    out = coq_header('Cross-kind arms of `impl Ord for Value` and declaration order of `enum Value`', ['src/value/mod.rs'])
+    out += 'Inductive vkind := ' + ' | '.join('K' + n for n in names) + '.\n'
+    out += 'Definition all_vkinds : list vkind := [' + '; '.join('K' + n for n in names) + '].\n\n'
+    out += '(* position in the enum declaration = value hashed by `std::mem::discriminant(self).hash(..)` *)\n'
+    out += 'Definition vkind_discr (k : vkind) : N :=\n  match k with\n' + \
+           ''.join(f'  | K{n} => {i}%N\n' for i, n in enumerate(names)) + '  end.\n\n'
+    out += '(* `Some c`: the arm of `cmp` selected for this pair of variants returns c whatever the payloads;\n' \
+           '   `None`: the selected arm compares payloads *)\n'
+    out += 'Definition cross_cmp (a b : vkind) : option comparison :=\n  match a, b with\n'
+    npay = 0
+    for a in names:
+        for b in names:
+            v = ev.call('cmp', [('E', 'Value', a, None), ('E', 'Value', b, None)])
+            if isinstance(v, tuple) and v[0] == 'BODY':
+                npay += 1
+                continue
+            out += f'  | K{a}, K{b} => Some {_ordering(v, "Value::cmp")}\n'
+    out += '  | _, _ => None\n  end.\n'
+    write('ValueRank.v', out)
+    return {'kinds': len(names), 'payload_arms': npay}
+
+
+def gen_wirerank():
+    """compare_wire_values / wire_value_type_rank (src/protocol/handler.rs): rank table and, for every pair
+    of WireValue variants, which kind of arm of the inner `match (va, vb)` decides."""
+    full = read('src/protocol/handler.rs')
+    # handler.rs contains raw strings the lexer does not know; cut out the two functions textually
+    src = impl_block(full, r'\bfn compare_wire_values\s*\([^)]*\)\s*->\s*[\w:]+') + '\n' + \
+        impl_block(full, r'\bfn wire_value_type_rank\s*\([^)]*\)\s*->\s*\w+') + '\n'
+    wsrc = read('src/protocol/wire.rs')
+    names = [v for v, _ in enum_variants(wsrc, 'WireValue')]
+    ev = EvBody(src, {})
+    ranks = {}
+    for n in names:
+        r = ev.call('wire_value_type_rank', [('E', 'WireValue', n, None)])
+        if not isinstance(r, int) or isinstance(r, bool):
+            raise TranslateError(f'wire_value_type_rank({n}) is not an integer literal: {r!r}')
+        ranks[n] = r
+    # outer match of compare_wire_values: must be the four Option shapes, in any order
+    _, body = fn_tokens(src, 'compare_wire_values')
+    txt = ' '.join(t[1] for t in body)
+    for shape, res in (('( None , None ) =>', 'Equal'), ('( None , Some ( _ ) ) =>', 'Less'), ('( Some ( _ ) , None ) =>', 'Greater')):
+        m = re.search(re.escape(shape) + r'\s*((?:\w+ :: )*\w+(?:::\w+)*)', txt)
+        if not m or not m.group(1).replace(' ', '').endswith('Ordering::' + res):
+            raise TranslateError(f'compare_wire_values: outer arm {shape} is not Ordering::{res}')
+    idx = [n for n, t in enumerate(body) if t[1] == 'match']
+    if len(idx) != 2:
+        raise TranslateError('compare_wire_values: expected exactly one outer and one inner match')
+    j = idx[1] + 1
+    scrut = []
+    while body[j][1] != '{':
+        scrut.append(body[j][1]); j += 1
+    if scrut != ['(', 'va', ',', 'vb', ')'] or ' '.join(t[1] for t in body[idx[1] - 12:idx[1]]) != '( Some ( va ) , Some ( vb ) ) =>':
+        raise TranslateError('compare_wire_values: inner match is not `(Some(va), Some(vb)) => match (va, vb)`')
+    arms, _ = take_group(body, j)
+    out = coq_header('wire_value_type_rank and the arm structure of compare_wire_values', ['src/protocol/handler.rs', 'src/protocol/wire.rs'])
+    out += 'Inductive wkind := ' + ' | '.join('WK' + n for n in names) + '.\n'
+    out += 'Definition all_wkinds : list wkind := [' + '; '.join('WK' + n for n in names) + '].\n\n'
+    out += 'Definition wire_rank (k : wkind) : N :=\n  match k with\n' + \
+           ''.join(f'  | WK{n} => {ranks[n]}%N\n' for n in names) + '  end.\n\n'
+    out += '(* which arm of `match (va, vb)` decides a pair of kinds:\n' \
+           '   WConst c = a payload-independent constant, WRank = comparison of wire_rank, WPayload = looks at payloads *)\n'
+    out += 'Inductive warm := WConst (c : comparison) | WRank | WPayload.\n'
+    out += 'Definition wire_arm (a b : wkind) : warm :=\n  match a, b with\n'
+    stats = {'const': 0, 'rank': 0, 'payload': 0}
+    rank_body = 'wire_value_type_rank ( va ) . cmp ( & wire_value_type_rank ( vb ) )'
+    for a in names:
+        for b in names:
+            va, vb = ('E', 'WireValue', a, None), ('E', 'WireValue', b, None)
+            v = ev.match(('T', [va, vb]), arms, {'va': va, 'vb': vb})
+            if isinstance(v, tuple) and v[0] == 'BODY':
+                if v[1].replace(' ,', '').strip() == rank_body:
+                    stats['rank'] += 1
+                    continue
+                if 'wire_value_type_rank' in v[1]:
+                    raise TranslateError('compare_wire_values: unrecognised use of wire_value_type_rank: ' + v[1])
+                stats['payload'] += 1
+                out += f'  | WK{a}, WK{b} => WPayload\n'
+            else:
+                stats['const'] += 1
+                out += f'  | WK{a}, WK{b} => WConst {_ordering(v, "compare_wire_values")}\n'
+    out += '  | _, _ => WRank\n  end.\n'
+    write('WireRank.v', out)
+    return stats
+
+
 # ------------------------------------------------------------------ dispatcher
 GENS = {'auth': gen_auth}
+GENS['rank'] = gen_rank
+GENS['wirerank'] = gen_wirerank
+
+
+# ------------------------------------------------------------------ partition guard (C03)
+def enum_variant_fields(src, name):
+    """[(variant, [(field, type_text)])] for struct-like variants of `pub enum name`."""
+    m = re.search(r'pub enum ' + name + r'\s*\{', src)
+    if not m:
+        raise TranslateError(f'enum {name} not found')
+    toks = lex(src[m.end() - 1:])
+    body, _ = take_group(toks, 0)
+    out, i = [], 0
+    while i < len(body):
+        k, t = body[i]
+        if t == '#':
+            _, i = take_group(body, i + 1)
+            continue
+        if k == 'id':
+            fields = []
+            j = i + 1
+            if j < len(body) and body[j][1] == '{':
+                inner, j = take_group(body, j)
+                # split fields on top-level commas; each is  name : type   (attributes skipped)
+                cur, depth, parts = [], 0, []
+                for tk in inner:
+                    if tk[1] in '([{<':
+                        depth += 1
+                    if tk[1] in ')]}>':
+                        depth -= 1
+                    if tk[1] == ',' and depth == 0:
+                        parts.append(cur); cur = []
+                    else:
+                        cur.append(tk)
+                if cur:
+                    parts.append(cur)
+                for part in parts:
+                    while part and part[0][1] == '#':
+                        _, e = take_group(part, 1)
+                        part = part[e:]
+                    part = [x for x in part if x[1] != 'pub']
+                    if len(part) >= 3 and part[1][1] == ':':
+                        fields.append((part[0][1], ' '.join(x[1] for x in part[2:])))
+            elif j < len(body) and body[j][1] == '(':
+                raise TranslateError(f'{name}::{t}: tuple variant not expected')
+            out.append((t, fields))
+            i = j
+            while i < len(body) and body[i][1] != ',':
+                i += 1
+        i += 1
+    return out
+
+
+def gen_guard():
+    """CodeGenerator::contains_join  ->  Gen/PartitionGuard.v.
+    Each arm of the `match ir` must be `IRNode::K {..} => true | false | <recursion>` where
+    <recursion> is an `||` of `Self::contains_join(<field>)` / `<field>.iter().any(Self::contains_join)`.
+    A kind is GRec only when EVERY IRNode-typed field of the variant is recursed into;
+    recursion into a strict subset is GPartial (the proof obligation then fails)."""
+    cg = read('src/code_generator/mod.rs')
+    variants = enum_variant_fields(read('src/ir/mod.rs'), 'IRNode')
+    names = [v for v, _ in variants]
+    child_fields = {}
+    for v, fields in variants:
+        child_fields[v] = [f for f, ty in fields if re.search(r'\bIRNode\b', ty)]
+    pn, body = fn_tokens(cg, 'contains_join')
+    if len(pn) != 1:
+        raise TranslateError('contains_join: expected one parameter')
+    if not (body and body[0][1] == 'match'):
+        raise TranslateError('contains_join: body is not a single match')
+    j = 1
+    while body[j][1] != '{':
+        j += 1
+    scrut = [t[1] for t in body[1:j] if t[1] not in ('*', '&')]
+    if scrut != [pn[0]]:
+        raise TranslateError('contains_join: match scrutinee is not the parameter')
+    arms, end = take_group(body, j)
+    if end != len(body):
+        raise TranslateError('contains_join: tokens after the match')
+    # split arms
+    actions = {}
+    i = 0
+    while i < len(arms):
+        k = i
+        depth = 0
+        while not (arms[k][1] == '=>' and depth == 0):
+            if arms[k][1] in '([{':
+                depth += 1
+            if arms[k][1] in ')]}':
+                depth -= 1
+            k += 1
+        pat = arms[i:k]
+        e = k + 1
+        depth = 0
+        while e < len(arms) and not (arms[e][1] == ',' and depth == 0):
+            if arms[e][1] in '([{':
+                depth += 1
+            if arms[e][1] in ')]}':
+                depth -= 1
+            e += 1
+        rhs = arms[k + 1:e]
+        i = e + 1
+        if any(t[1] == 'if' for t in pat):
+            raise TranslateError('contains_join: match guard not supported')
+        # alternatives
+        alts, cur, depth = [], [], 0
+        for tk in pat:
+            if tk[1] in '([{':
+                depth += 1
+            if tk[1] in ')]}':
+                depth -= 1
+            if tk[1] == '|' and depth == 0:
+                alts.append(cur); cur = []
+            else:
+                cur.append(tk)
+        alts.append(cur)
+        rtxt = ' '.join(t[1] for t in rhs)
+        for alt in alts:
+            if len(alt) == 1 and alt[0][1] == '_':
+                kinds = [n for n in names if n not in actions]
+                binds = None
+            else:
+                head = alt[0][1]
+                if '::' not in head or head.split('::')[-2] not in ('IRNode', 'Self'):
+                    raise TranslateError('contains_join: unexpected pattern ' + ' '.join(t[1] for t in alt))
+                kinds = [head.split('::')[-1]]
+                binds = []
+                if len(alt) > 1:
+                    inner, _ = take_group(alt, 1)
+                    binds = [t[1] for t in inner if t[0] == 'id' and t[1] not in ('ref', 'mut')]
+            for kd in kinds:
+                if kd not in names:
+                    raise TranslateError(f'contains_join: unknown IRNode variant {kd}')
+                if rtxt == 'true':
+                    act = 'GForce'
+                elif rtxt == 'false':
+                    act = 'GFree'
+                else:
+                    # || of recursive calls
+                    parts = [x.strip() for x in rtxt.split('||')]
+                    rec = []
+                    for part in parts:
+                        m1 = re.fullmatch(r'Self::contains_join \( (\w+) \)', part)
+                        m2 = re.fullmatch(r'(\w+) \. iter \( \) \. any \( Self::contains_join \)', part)
+                        mm = m1 or m2
+                        if not mm:
+                            raise TranslateError(f'contains_join: arm for {kd} is outside the translated subset: {rtxt}')
+                        rec.append(mm.group(1))
+                    if binds is None or any(x not in binds for x in rec):
+                        raise TranslateError(f'contains_join: arm for {kd} recurses into something that is not a field binding')
+                    act = 'GRec' if set(child_fields[kd]) <= set(rec) else 'GPartial'
+                if kd in actions:
+                    continue        # earlier arm wins
+                actions[kd] = act
+    missing = [n for n in names if n not in actions]
+    if missing:
+        raise TranslateError('contains_join: no arm for ' + ', '.join(missing))
+    out = coq_header('Partition-safety guard: which IRNode kinds force single-worker execution (CodeGenerator::contains_join)',
+                     ['src/code_generator/mod.rs', 'src/ir/mod.rs'])
+    out += 'Inductive gkind := ' + ' | '.join('G' + n for n in names) + '.\n'
+    out += '(* GForce: the guard answers true at this kind; GFree: false; GRec: true iff it is true for\n' \
+           '   some input (every input is inspected); GPartial: some input is not inspected *)\n'
+    out += 'Inductive gaction := GForce | GFree | GRec | GPartial.\n'
+    out += 'Definition all_gkinds : list gkind := [' + '; '.join('G' + n for n in names) + '].\n'
+    out += 'Definition guard_action (k : gkind) : gaction :=\n  match k with\n' + \
+           ''.join(f'  | G{n} => {actions[n]}\n' for n in names) + '  end.\n'
+    out += 'Definition gkind_inputs (k : gkind) : nat :=   (* number of IRNode-typed fields *)\n  match k with\n' + \
+           ''.join(f'  | G{n} => {len(child_fields[n])}\n' for n in names) + '  end.\n'
+    write('PartitionGuard.v', out)
+    return {'actions': actions}
+
+
+GENS['guard'] = gen_guard
+
+
+# ------------------------------------------------------------------ schema type matching (C33)
+def gen_schema():
+    """SchemaType::matches  ->  Gen/SchemaMatches.v.
+    The body must be ONE `match (self, value) { (SchemaType::T.., Value::V..) => rhs, ... }`.
+    Accepted type patterns: `SchemaType::K`, `SchemaType::Vector { dim: Some(n) }`,
+    `SchemaType::Vector { dim: None }`, `SchemaType::Named(_)`, `_`.  Accepted value patterns:
+    `Value::K(_)`, `Value::K(v)`, `_`.  Accepted right-hand sides: `true`, `false`, and
+    `v.len() == *n` with v/n the bindings of that arm (outcome MLen: length equals declared dim).
+    First matching arm wins.  Anything else makes the translation fail."""
+    src = read('src/schema/mod.rs')
+    tvars = enum_variants(src, 'SchemaType')
+    vvars = enum_variants(read('src/value/mod.rs'), 'Value')
+    tkinds = []
+    for v, kind in tvars:
+        if v == 'Vector':
+            if kind != 'struct':
+                raise TranslateError('SchemaType::Vector is expected to be a struct variant { dim }')
+            tkinds += ['VectorDim', 'VectorAny']
+        else:
+            tkinds.append(v)
+    vkinds = [v for v, _ in vvars]
+    pn, body = fn_tokens(src, 'matches')
+    if pn != ['self', 'value']:
+        raise TranslateError(f'matches: unexpected parameters {pn}')
+    if not (body and body[0][1] == 'match'):
+        raise TranslateError('matches: body is not a single match')
+    j = 1
+    while body[j][1] != '{':
+        j += 1
+    scrut = ''.join(t[1] for t in body[1:j])
+    if scrut != '(self,value)':
+        raise TranslateError('matches: scrutinee is not (self, value): ' + scrut)
+    arms, end = take_group(body, j)
+    if end != len(body):
+        raise TranslateError('matches: tokens after the match')
+    table = {}
+    i = 0
+    while i < len(arms):
+        k, depth = i, 0
+        while not (arms[k][1] == '=>' and depth == 0):
+            if arms[k][1] in '([{':
+                depth += 1
+            if arms[k][1] in ')]}':
+                depth -= 1
+            k += 1
+        pat = arms[i:k]
+        e, depth = k + 1, 0
+        while e < len(arms) and not (arms[e][1] == ',' and depth == 0):
+            if arms[e][1] in '([{':
+                depth += 1
+            if arms[e][1] in ')]}':
+                depth -= 1
+            e += 1
+        rhs = ' '.join(t[1] for t in arms[k + 1:e])
+        i = e + 1
+        ptxt = ' '.join(t[1] for t in pat)
+        if any(t[1] == 'if' for t in pat):
+            raise TranslateError('matches: match guard not supported: ' + ptxt)
+        if ptxt == '_':
+            ts, vs, tb, vb = list(tkinds), list(vkinds), None, None
+        else:
+            if pat[0][1] != '(':
+                raise TranslateError('matches: arm is not a pair pattern: ' + ptxt)
+            inner, pe = take_group(pat, 0)
+            if pe != len(pat):
+                raise TranslateError('matches: tokens after the pair pattern: ' + ptxt)
+            # split the pair on the top-level comma
+            parts, cur, depth = [], [], 0
+            for tk in inner:
+                if tk[1] in '([{':
+                    depth += 1
+                if tk[1] in ')]}':
+                    depth -= 1
+                if tk[1] == ',' and depth == 0:
+                    parts.append(cur); cur = []
+                else:
+                    cur.append(tk)
+            parts.append(cur)
+            if len(parts) != 2:
+                raise TranslateError('matches: pattern is not a pair: ' + ptxt)
+            tp = ' '.join(t[1] for t in parts[0])
+            vp = ' '.join(t[1] for t in parts[1])
+            tb = vb = None
+            if tp == '_':
+                ts = list(tkinds)
+            else:
+                m = re.fullmatch(r'SchemaType::(\w+)(?: (.*))?', tp)
+                if not m:
+                    raise TranslateError('matches: unexpected type pattern ' + tp)
+                name, rest = m.group(1), m.group(2)
+                if name == 'Vector':
+                    m2 = re.fullmatch(r'\{ dim : Some \( (\w+) \) \}', rest or '')
+                    if m2:
+                        ts, tb = ['VectorDim'], m2.group(1)
+                    elif (rest or '') == '{ dim : None }':
+                        ts = ['VectorAny']
+                    elif (rest or '') in ('{ .. }', '{ dim : _ }'):
+                        ts = ['VectorDim', 'VectorAny']
+                    else:
+                        raise TranslateError('matches: unexpected Vector pattern ' + tp)
+                elif name in tkinds:
+                    if rest not in (None, '( _ )'):
+                        raise TranslateError('matches: type pattern inspects a payload: ' + tp)
+                    ts = [name]
+                else:
+                    raise TranslateError('matches: unknown SchemaType variant ' + name)
+            if vp == '_':
+                vs = list(vkinds)
+            else:
+                m = re.fullmatch(r'Value::(\w+)(?: \( (\w+) \))?', vp)
+                if not m or m.group(1) not in vkinds:
+                    raise TranslateError('matches: unexpected value pattern ' + vp)
+                vs = [m.group(1)]
+                if m.group(2) and m.group(2) != '_':
+                    vb = m.group(2)
+        if rhs == 'true':
+            out = 'MYes'
+        elif rhs == 'false':
+            out = 'MNo'
+        elif tb and vb and rhs == f'{vb} . len ( ) == * {tb}':
+            out = 'MLen'
+            if not all(v in ('Vector', 'VectorInt8') for v in vs):
+                raise TranslateError('matches: length test on a non-vector value: ' + ptxt)
+        else:
+            raise TranslateError(f'matches: right-hand side outside the translated subset: {rhs}')
+        for t in ts:
+            for v in vs:
+                table.setdefault((t, v), out)      # earlier arm wins
+    missing = [(t, v) for t in tkinds for v in vkinds if (t, v) not in table]
+    if missing:
+        raise TranslateError(f'matches: no arm covers {missing[:3]}')
+    out = coq_header('Schema type matching table (SchemaType::matches): declared type kind x value kind', ['src/schema/mod.rs', 'src/value/mod.rs'])
+    out += 'Inductive tkind := ' + ' | '.join('T' + t for t in tkinds) + '.\n'
+    out += 'Inductive vkind := ' + ' | '.join('K' + v for v in vkinds) + '.\n'
+    out += '(* MYes: accepted; MNo: rejected; MLen: accepted iff the vector length equals the declared dimension *)\n'
+    out += 'Inductive moutcome := MYes | MNo | MLen.\n'
+    out += 'Definition all_tkinds : list tkind := [' + '; '.join('T' + t for t in tkinds) + '].\n'
+    out += 'Definition all_vkinds : list vkind := [' + '; '.join('K' + v for v in vkinds) + '].\n'
+    out += 'Definition matches_table (t : tkind) (v : vkind) : moutcome :=\n  match t, v with\n'
+    for t in tkinds:
+        for v in vkinds:
+            out += f'  | T{t}, K{v} => {table[(t, v)]}\n'
+    out += '  end.\n'
+    write('SchemaMatches.v', out)
+    return {'tkinds': len(tkinds), 'vkinds': len(vkinds), 'yes': sum(1 for x in table.values() if x == 'MYes'), 'len': sum(1 for x in table.values() if x == 'MLen')}
+
+
+GENS['schema'] = gen_schema
 
 
 def main():
